@@ -16,7 +16,7 @@ import (
 	. "vh/vhlib"
 )
 
-var gens = map[string]GenFn{"SrcTokens": genSrcTokens, "HealthOps": genHealthOps, "LBTokens": genLBTokens, "HealthLoop": genHealthLoop, "RRTokens": genRRTokens, "HealthStoreOps": genHealthStoreOps}
+var gens = map[string]GenFn{"SrcTokens": genSrcTokens, "HealthOps": genHealthOps, "LBTokens": genLBTokens, "HealthLoop": genHealthLoop, "RRTokens": genRRTokens, "HealthStoreOps": genHealthStoreOps, "SubsetTokens": genSubsetTokens, "HostSetTokens": genHostSetTokens}
 
 // genSrcTokens: literal tokens / constants at named sites.
 //
@@ -660,5 +660,69 @@ func genHealthStoreOps(repo string) (string, error) {
 		}
 	}
 	fmt.Fprintf(&b, "Definition hs_mode : store_mode := %s.\nDefinition HealthStoreOps_translator_ok := %v.\n", mode, ok)
+	return b.String(), nil
+}
+
+// ---------------------------------------------------------------------------
+// genSubsetTokens: the shape of subsetLoadBalancerBuilder.filterHosts (pre-indexed subset builder).
+//
+//	FHAllPairs    : a pair whose key or value is not in the index => no host; intersection of the sets of ALL pairs
+//	FHSkipUnknown : pairs that are not in the index are skipped (the "smallest set first" rewrite)
+//
+// The printed function body is compared with the two known texts; any other text => not ok.
+const filterHostsHead = "{\n\tif len(kvs) == 0 {\n\t\tret := make([]types.Host, 0, b.hosts.Size())\n\t\tb.hosts.Range(func(host types.Host) bool {\n\t\t\tret = append(ret, host)\n\t\t\treturn true\n\t\t})\n\t\treturn ret\n\t}\n"
+const filterHostsAllPairs = filterHostsHead + "\tvar curSet *intsets.Sparse\n\tfor _, kv := range kvs {\n\t\tkey := kv.T1\n\t\tval := kv.T2\n\t\tvalueMap, ok := b.indexer[key]\n\t\tif !ok {\n\t\t\treturn make([]types.Host, 0)\n\t\t}\n\t\tset, ok := valueMap[val]\n\t\tif !ok {\n\t\t\treturn make([]types.Host, 0)\n\t\t}\n\t\tif curSet == nil {\n\t\t\tcurSet = &intsets.Sparse{}\n\t\t\tcurSet.Copy(set)\n\t\t} else {\n\t\t\tcurSet.IntersectionWith(set)\n\t\t}\n\t}\n\treturn b.selectHosts(curSet)\n}"
+const filterHostsSkipUnknown = filterHostsHead + "\tsets := make([]*intsets.Sparse, 0, len(kvs))\n\tfor _, kv := range kvs {\n\t\tif set, ok := b.indexer[kv.T1][kv.T2]; ok {\n\t\t\tsets = append(sets, set)\n\t\t}\n\t}\n\tif len(sets) == 0 {\n\t\treturn make([]types.Host, 0)\n\t}\n\tsort.Slice(sets, func(i, j int) bool {\n\t\treturn sets[i].Len() < sets[j].Len()\n\t})\n\tcurSet := &intsets.Sparse{}\n\tcurSet.Copy(sets[0])\n\tfor _, set := range sets[1:] {\n\t\tif curSet.IsEmpty() {\n\t\t\tbreak\n\t\t}\n\t\tcurSet.IntersectionWith(set)\n\t}\n\treturn b.selectHosts(curSet)\n}"
+
+func genSubsetTokens(repo string) (string, error) {
+	txt, err := funcText(repo, "pkg/upstream/cluster/subset_loadbalancer_builder.go", "subsetLoadBalancerBuilder", "filterHosts")
+	if err != nil {
+		return "", err
+	}
+	var b strings.Builder
+	b.WriteString("From MV Require Import Model.Subset.\n")
+	switch normText(txt) {
+	case normText(filterHostsAllPairs):
+		b.WriteString("Definition fh_mode : fh_shape := FHAllPairs.\nDefinition SubsetTokens_translator_ok := true.\n")
+	case normText(filterHostsSkipUnknown):
+		b.WriteString("Definition fh_mode : fh_shape := FHSkipUnknown.\nDefinition SubsetTokens_translator_ok := true.\n")
+	default:
+		b.WriteString("(* filterHosts: text not recognised *)\nDefinition fh_mode : fh_shape := FHAllPairs.\nDefinition SubsetTokens_translator_ok := false.\n")
+	}
+	return b.String(), nil
+}
+
+// ---------------------------------------------------------------------------
+// genHostSetTokens: does AppendSimpleHostHandler publish a host set that is distinct by address?
+//
+//	true  : hosts = new objects ++ old hosts, published through NewHostSet (the text in the tree)
+//	false : hosts = new objects ++ old hosts whose address is not appended, published through NewNoDistinctHostSet
+//
+// NewSimpleHostHandler and RemoveClusterHosts must publish through NewHostSet; any other text => not ok.
+const appendHandlerTail = "\tif snap.ClusterInfo().SlowStart().Mode != \"\" {\n\t\ttransferHostSetStates(snap.HostSet(), ns)\n\t}\n\tc.UpdateHosts(ns)\n}"
+const appendHandlerDistinct = "{\n\tsnap := c.Snapshot()\n\thosts := make([]types.Host, 0, len(hostConfigs))\n\tfor _, hc := range hostConfigs {\n\t\thosts = append(hosts, NewSimpleHost(hc, snap.ClusterInfo()))\n\t}\n\tsnap.HostSet().Range(func(host types.Host) bool {\n\t\thosts = append(hosts, host)\n\t\treturn true\n\t})\n\tns := NewHostSet(hosts)\n" + appendHandlerTail
+const appendHandlerNoDistinct = "{\n\tsnap := c.Snapshot()\n\toldHosts := snap.HostSet()\n\thosts := make([]types.Host, 0, len(hostConfigs)+oldHosts.Size())\n\tappended := make(map[string]struct{}, len(hostConfigs))\n\tfor _, hc := range hostConfigs {\n\t\thosts = append(hosts, NewSimpleHost(hc, snap.ClusterInfo()))\n\t\tappended[hc.Address] = struct{}{}\n\t}\n\toldHosts.Range(func(host types.Host) bool {\n\t\tif _, replaced := appended[host.AddressString()]; !replaced {\n\t\t\thosts = append(hosts, host)\n\t\t}\n\t\treturn true\n\t})\n\tns := NewNoDistinctHostSet(hosts)\n" + appendHandlerTail
+
+func genHostSetTokens(repo string) (string, error) {
+	const file = "pkg/upstream/cluster/cluster_manager.go"
+	app, err := funcText(repo, file, "", "AppendSimpleHostHandler")
+	if err != nil {
+		return "", err
+	}
+	upd, _ := funcText(repo, file, "", "NewSimpleHostHandler")
+	rem, _ := funcText(repo, file, "clusterManager", "RemoveClusterHosts")
+	var b strings.Builder
+	ok := strings.Contains(upd, "ns := NewHostSet(hosts)") && !strings.Contains(upd, "NewNoDistinctHostSet") &&
+		strings.Contains(rem, "c.UpdateHosts(NewHostSet(sortedHosts))") && !strings.Contains(rem, "NewNoDistinctHostSet")
+	switch normText(app) {
+	case normText(appendHandlerDistinct):
+		b.WriteString("Definition hs_append_distinct := true.\n")
+	case normText(appendHandlerNoDistinct):
+		b.WriteString("Definition hs_append_distinct := false.\n")
+	default:
+		ok = false
+		b.WriteString("(* AppendSimpleHostHandler: text not recognised *)\nDefinition hs_append_distinct := true.\n")
+	}
+	fmt.Fprintf(&b, "Definition HostSetTokens_translator_ok := %v.\n", ok)
 	return b.String(), nil
 }
